@@ -1126,3 +1126,97 @@ Proof.
   rewrite Hmk. cbn [obind]. rewrite (verify_tl_relax _ _ Hb4). cbn [obind]. simpl.
   apply verify_pairs_relax. assumption.
 Qed.
+
+(* ================================================================ sites that interact *)
+(* a field named at two sites: the key fields are pairwise distinct across orchestration keys and metricKeys
+   (they become the label names key_<field> of one metric), pair names and schema fields are distinct, and the
+   rewriter chain of EVERY rewriteFields entry is well formed - whether the field is hidden, an environment
+   field or visible (NewEventSerializer builds all of them) *)
+
+Lemma mem_In : forall x l, mem x l = true <-> In x l.
+Proof.
+  intros x l. unfold mem. rewrite existsb_exists. split.
+  - intros [y [H1 H2]]. apply bytes_eqb_eq in H2. subst. assumption.
+  - intro H. exists x. split; [assumption|apply bytes_eqb_refl].
+Qed.
+
+Lemma mem_false : forall x l, mem x l = false -> ~ In x l.
+Proof. intros x l H Hin. apply mem_In in Hin. congruence. Qed.
+
+Lemma NoDup_app_intro : forall (a b : list bytes), NoDup a -> NoDup b -> (forall x, In x a -> ~ In x b) -> NoDup (a ++ b).
+Proof.
+  induction a as [|x a IH]; intros b Ha Hb Hd; simpl; [assumption|].
+  inversion Ha; subst. constructor.
+  - intro Hin. apply in_app_or in Hin. destruct Hin as [Hin|Hin]; [contradiction|]. apply (Hd x); [left; reflexivity|assumption].
+  - apply IH; auto. intros y Hy. apply Hd. right. assumption.
+Qed.
+
+Lemma check_label_fields_nodup : forall names seen, check_label_fields names seen = Ok tt ->
+  NoDup names /\ (forall n, In n names -> ~ In n seen).
+Proof.
+  induction names as [|n r IH]; intros seen H; simpl in H; [split; [constructor|intros ? []]|].
+  binds H. apply check_ok in Hb0. destruct (IH _ H) as [N1 N2].
+  assert (Hn : ~ In n seen) by (apply mem_false; destruct (mem n seen); [discriminate|reflexivity]).
+  split.
+  - constructor; [|assumption]. intro Hin. apply (N2 n Hin). left. reflexivity.
+  - intros m [E|Hin]; [subst; assumption|]. intro Hs. apply (N2 m Hin). right. assumption.
+Qed.
+
+Lemma schema_names_nodup : forall names seen, schema_names_ok names seen = true ->
+  NoDup names /\ (forall n, In n names -> ~ In n seen).
+Proof.
+  induction names as [|n r IH]; intros seen H; simpl in H; [split; [constructor|intros ? []]|].
+  split_and H. destruct (IH _ H0) as [N1 N2].
+  assert (Hn : ~ In n seen) by (apply mem_false; destruct (mem n seen); [discriminate|reflexivity]).
+  split.
+  - constructor; [|assumption]. intro Hin. apply (N2 n Hin). left. reflexivity.
+  - intros m [E|Hin]; [subst; assumption|]. intro Hs. apply (N2 m Hin). right. assumption.
+Qed.
+
+Lemma verify_pairs_names : forall sch l seen, verify_pairs fq sch seen l = Ok tt ->
+  NoDup (map p_name l) /\ (forall n, In n (map p_name l) -> ~ In n seen) /\
+  (forall p, In p l -> verify_output fq sch (p_output p) = Ok tt).
+Proof.
+  intros sch l. induction l as [|p r IH]; intros seen H; simpl in H.
+  - split; [constructor|]. split; intros ? [].
+  - binds H. apply check_ok in Hb. destruct (IH _ H) as [N1 [N2 N3]].
+    assert (Hn : ~ In (p_name p) seen) by (apply mem_false; destruct (mem (p_name p) seen); [discriminate|reflexivity]).
+    unfold verify_pair in Hb0. simpl in Hb0. binds Hb0.
+    split; [|split].
+    + simpl. constructor; [|assumption]. intro Hin. apply (N2 _ Hin). left. reflexivity.
+    + intros m [E|Hin]; [subst; assumption|]. intro Hs. apply (N2 m Hin). right. assumption.
+    + intros p' [E|Hin]; [subst; assumption|auto].
+Qed.
+
+Theorem interacting_sites_lemma : forall c, verify fq c = Ok tt ->
+  NoDup (orch_keys (c_orch c) ++ c_metric_keys c) /\
+  NoDup (map p_name (c_pairs c)) /\
+  NoDup (c_fields c) /\
+  (forall p env hidden rewrites mode addr ok dur, In p (c_pairs c) ->
+     p_output p = OFluentd env hidden rewrites mode addr ok dur ->
+     forall fr, In fr rewrites -> known (c_fields c) (fst fr) /\ rewriters_valid (c_fields c) (snd fr)).
+Proof.
+  intros c H. unfold verify in H. binds H.
+  rename Hb0 into Hschema, Hb2 into Horch, Hb3 into Hmk, H into Hpairs.
+  destruct (construct_orch_ok (c_fields c) (Z.of_nat (length (c_fields c))) _ _ ltac:(lia) Horch) as [ro [_ [_ [Ek Hl]]]].
+  subst ub2.
+  unfold verify_metric_keys in Hmk. simpl in Hmk. binds Hmk. apply check_ok in Hmk.
+  match goal with Hc : check_label_fields (c_metric_keys c) [] = Ok tt |- _ =>
+    destruct (check_label_fields_nodup _ _ Hc) as [Nm _] end.
+  assert (Nk : NoDup (orch_keys (c_orch c))).
+  { unfold labels_ok in Hl. destruct (check_label_fields (orch_keys (c_orch c)) []) as [[]|e|s] eqn:E; try discriminate.
+    apply (check_label_fields_nodup _ _ E). }
+  destruct (verify_pairs_names _ _ _ Hpairs) as [Np [_ Hout]].
+  split; [|split; [assumption|split]].
+  - apply NoDup_app_intro; try assumption. intros x Hx Hm.
+    assert (Hex : existsb (fun k => mem k (orch_keys (c_orch c))) (c_metric_keys c) = true).
+    { apply existsb_exists. exists x. split; [assumption|apply mem_In; assumption]. }
+    rewrite Hex in Hmk. discriminate.
+  - unfold verify_schema in Hschema. binds Hschema. apply check_ok in Hschema.
+    apply (schema_names_nodup _ _ Hschema).
+  - intros p env hidden rewrites mode addr ok dur Hin Eo fr Hfr.
+    pose proof (Hout p Hin) as Ho. rewrite Eo in Ho. simpl in Ho. binds Ho.
+    match goal with Hr : verify_rewrite_fields _ rewrites = Ok tt |- _ =>
+      destruct (verify_rewrite_fields_in _ _ Hr fr Hfr) as [F1 F2] end.
+    split; [eapply check_field_known; eauto|apply (verify_rewriters_valid _ _ F2)].
+Qed.
